@@ -58,7 +58,7 @@ Definition reachable_serial (s : st) : Prop :=
 
 (* requests, as opposed to the death of a task (an event of the outside world) *)
 Definition is_request (o : op) : bool :=
-  match o with ODies _ | OFail _ | ORefuse _ | ORecon => false | _ => true end.
+  match o with ODies _ | OFail _ | ORefuse _ | ORelock _ | ORecon => false | _ => true end.
 
 Definition env_listed (e : N) (s : st) : bool :=
   match find_env e (s_envs s) with Some _ => true | None => false end.
